@@ -18,13 +18,36 @@ import (
 	"fmt"
 	"os"
 	"path/filepath"
+	"strconv"
+	"time"
 
 	. "github.com/evanw/esbuild/verifharness/hlib"
 )
 
 func main() { Main("c09", runC09) }
 
+// Wall-clock budget of one harness run: after it the streams stop generating
+// new cases/histories, finish the one in progress and write their cases and
+// stats normally (how many ran is recorded in the stats). VERIF_C09_BUDGET_S
+// overrides the default (quick 240 s, thorough 420 s).
+var runStart = time.Now()
+var runBudget = 240 * time.Second
+
+// fraction f of the budget is used up
+func budgetSpent(f float64) bool {
+	return time.Since(runStart) > time.Duration(float64(runBudget)*f)
+}
+
 func runC09(seed uint64, n int, tier string, outDir string) []*Stats {
+	runStart = time.Now()
+	if tier == "thorough" {
+		runBudget = 420 * time.Second
+	}
+	if s := os.Getenv("VERIF_C09_BUDGET_S"); s != "" {
+		if v, err := strconv.Atoi(s); err == nil && v > 0 {
+			runBudget = time.Duration(v) * time.Second
+		}
+	}
 	tmp, err := os.MkdirTemp("", "verif-c09-")
 	if err != nil {
 		panic(err)
@@ -36,6 +59,7 @@ func runC09(seed uint64, n int, tier string, outDir string) []*Stats {
 
 	all = append(all, streamFSCache(seed, n, cf))
 	all = append(all, streamSI(seed, n, cf))
+	all = append(all, streamJSONRead(seed, n, cf))
 	all = append(all, streamOptEq(seed, n, cf))
 	all = append(all, streamWatchFS(seed, n, tmp, cf))
 	all = append(all, extraStreams(seed, n, tier, tmp, cf)...)
